@@ -51,6 +51,12 @@ def generate(rng, tier):
         uniq = [c[0] for c in p["part"]["columns"] if c[1] in ("d", "i") and not re.search(r"_[xyz]$", c[0])]
         if uniq:
             case["sortby"] = rng.choice(uniq)
+    if p["part"] is not None and rng.random() < 0.3:
+        # only some of the particle variables are asked for (as a list, or the others switched off one by one): the
+        # records of the others are skipped, whatever their on-disk type
+        names = [c[0] for c in p["part"]["columns"]]
+        keep = [n for n in names if rng.random() < 0.6 or n == case["sortby"]] or [names[0]]
+        case["part_select"] = {"form": rng.choice(["list", "off"]), "keep": keep}
     return case
 
 
@@ -87,6 +93,11 @@ def execute(case, stats):
         kw = {}
         if case["sortby"]:
             kw["sortby"] = {"part": case["sortby"]}
+        ps = case.get("part_select") if p["part"] is not None else None
+        if ps:
+            stats.inc("probe.particle_variable_subset=" + ps["form"])
+            allnames = [c[0] for c in p["part"]["columns"]]
+            kw["select"] = {"part": list(ps["keep"])} if ps["form"] == "list" else {"part": {n: False for n in allnames if n not in ps["keep"]}}
         if case.get("warm"):
             # an earlier load by another dataset in this process, with the same argument objects
             stats.inc("probe.earlier_load_in_this_process")
@@ -132,8 +143,12 @@ def execute(case, stats):
                     V("part", "missing-group", {"groups": list(ds.keys())})
                 else:
                     part = ds["part"]
-                    want = merge_names([c[0] for c in cols], w.ndim)
+                    want = merge_names([c[0] for c in cols if not ps or c[0] in ps["keep"]], w.ndim)
                     colidx = {c[0]: (i, c[1]) for i, c in enumerate(cols)}
+                    if ps:
+                        for c_ in cols:
+                            if c_[0] not in ps["keep"] and c_[0] in part:
+                                V("part", "excluded-variable-present", {"key": c_[0]})
                     perm = np.arange(ntot)
                     if case["sortby"] and ntot:
                         ic, typ = colidx[case["sortby"]]
@@ -252,7 +267,7 @@ def measure(case):
     ncol = len(p["part"]["columns"]) if p["part"] else 0
     ns = (p["sink"]["nsink"] + len(p["sink"]["columns"])) if p["sink"] else 0
     return (p["ncpu"], npart, ncol, ns, p["levelmax"], p["ndim"], int(case["sortby"] is not None), len(p["hydro_vars"]), p["nboundary"],
-            int(p["units"] != [1.0, 1.0, 1.0]), p["maxcells"], int(bool(p["grav"])) + int(bool(p["rt_vars"])), int(bool(case.get("warm"))) + int(bool(case.get("reload"))))
+            int(p["units"] != [1.0, 1.0, 1.0]), p["maxcells"], int(bool(p["grav"])) + int(bool(p["rt_vars"])), int(bool(case.get("warm"))) + int(bool(case.get("reload"))) + int(bool(case.get("part_select"))))
 
 
 def reductions(case, viol):
@@ -261,6 +276,10 @@ def reductions(case, viol):
         yield dict(case, warm=False)
     if case.get("reload"):
         yield dict(case, reload=None)
+    if case.get("part_select"):
+        c = dict(case)
+        del c["part_select"]
+        yield c
     for q in world_reductions(p):
         # keep the part/sink population that the violation is about
         if viol["class"] == "part" and q.get("part") is None:
